@@ -137,8 +137,8 @@ func runC10(c *Ctx) {
 			optsD = paramDesc(W, p)
 		}
 	}
-	selSkip := matchOf(pre("F(ok(assert("+verD+","+skipI+")))"), pre("F(call:invoke:"+skipI+"."+skipM+"(", "#0)"))
-	selSkipErr := matchOf(pre("F(ok(assert("+verD+","+skipI+")))"), pre("EQ(call:invoke:"+skipI+"."+skipM+"(", "#err,nil)"))
+	selSkip := c10Labels(matchOf(pre("F(ok(assert("+verD+","+skipI+")))"), pre("F(call:invoke:"+skipI+"."+skipM+"(", "#0)")))
+	selSkipErr := c10Labels(matchOf(pre("F(ok(assert("+verD+","+skipI+")))"), pre("EQ(call:invoke:"+skipI+"."+skipM+"(", "#err,nil)")))
 	for _, u := range uses {
 		// what holds at the call: the guards of the call site in the outer function, plus (for a call made in a helper) the
 		// guards on the way from the helper's entry to the call — the helper runs only when its call site is reached
@@ -197,7 +197,7 @@ func runC10(c *Ctx) {
 	s := w.Summarize(W, Mode{Kind: mErr})
 	c.Evals += s.States
 	var listExits []*ExitSum // success exits that went through the listing
-	selSkipped := matchOf(pre("T(call:invoke:"+skipI+"."+skipM+"(", "#0)"))
+	selSkipped := c10Labels(matchOf(pre("T(call:invoke:"+skipI+"."+skipM+"(", "#0)")))
 	for _, ex := range s.Exits {
 		if _, h := hasLabel(ex.Checked, "T(call:invoke:"+skipI+"."+skipM+"(", "#0)"); h {
 			continue
@@ -289,11 +289,11 @@ func runC10(c *Ctx) {
 		// "equal" is decided on the values compared: the Reference part of the parsed reference against the Digest of the
 		// resolved descriptor, whichever way the two are brought to a common type (String() of the digest, or the reference
 		// converted to a digest) and whether or not the digest was first copied into a variable that is written once.
-		ok, n, wit := c10DeepExitsBlocked(w, fi, listExits, func(l string, iff *ssa.If, truth bool) bool {
+		ok, n, wit := c10DeepExitsBlocked(w, fi, listExits, func(l string, cond ssa.Value, truth bool) bool {
 			if strings.HasPrefix(l, "NE(call:(oras/registry.Reference).ValidateReferenceAsDigest(") && strings.Contains(l, "#err,nil)") {
 				return true
 			}
-			op, a, b, ok := c10Cmp(iff.Cond, truth)
+			op, a, b, ok := c10Cmp(cond, truth)
 			if !ok || op != token.EQL {
 				return false
 			}
@@ -469,6 +469,7 @@ func runC10(c *Ctx) {
 		x.memo = map[c10cell]c10stores{}
 	}
 	if x.obj != nil {
+		x.findAccessors()
 		okObj, why := x.objectDiscipline()
 		c.Check(okObj, "callback/state-object", "the state object of the verification is reachable only by the outer function and the function the callback forwards to, and only field by field", w.InstrPos(x.obj), why)
 	}
@@ -589,14 +590,15 @@ func runC10(c *Ctx) {
 	}
 	// limGuard: the edge is the limit test of this iteration (the counter is read inside the loop); second result: the
 	// limit it is compared with is the caller's (down form: the comparison is with 0, the limit is the initial value)
-	limGuard := func(e c10Edge) (bool, bool) {
-		op, a, b, ok := c10Cmp(e.iff.Cond, e.truth)
+	// limFact: the same for one elementary fact; here says whether a load of the counter is one of this iteration
+	limFact := func(cond ssa.Value, truth bool, here func(*ssa.UnOp) bool) (bool, bool) {
+		op, a, b, ok := c10Cmp(cond, truth)
 		if !ok {
 			return false, false
 		}
 		isCnt := func(v ssa.Value) bool {
 			lc, isLoad := x.cellOfLoad(v)
-			return isLoad && lc == counter && x.inIter(v.(*ssa.UnOp), inLoop)
+			return isLoad && lc == counter && here(v.(*ssa.UnOp))
 		}
 		if down {
 			if isCnt(a) && (((op == token.NEQ || op == token.GTR) && c10IntConst(b, 0)) || (op == token.GEQ && c10IntConst(b, 1))) {
@@ -609,6 +611,28 @@ func runC10(c *Ctx) {
 			return true, x.isLimit(b)
 		case op == token.GTR && isCnt(b):
 			return true, x.isLimit(a)
+		}
+		return false, false
+	}
+	limGuard := func(e c10Edge) (bool, bool) {
+		if g, l := limFact(e.iff.Cond, e.truth, func(u *ssa.UnOp) bool { return x.inIter(u, inLoop) }); g {
+			return g, l
+		}
+		// The test made by a read-only accessor of the state object called in this iteration (`if s.exhausted() { break }`):
+		// the edge is taken only when the accessor returned that answer, every return that can give it returns a value whose
+		// having that answer — or a branch every path to that return takes — is the limit test (c10frame.accessorWays), and
+		// the counter was read while the accessor ran, i.e. at its call in this iteration; the accessor stores nothing, so the
+		// counting store still follows the comparison.
+		if call, ways, ok := x.accessorWays(e.iff.Cond, e.truth); ok && x.inIter(call, inLoop) {
+			g := staticCallee(call)
+			here := func(u *ssa.UnOp) bool { return u.Parent() == g }
+			isG, isL := true, true
+			for _, w := range ways {
+				wg := w.holds(func(a c10alt) bool { ag, _ := limFact(a.cond, a.truth, here); return ag })
+				wl := w.holds(func(a c10alt) bool { ag, al := limFact(a.cond, a.truth, here); return ag && al })
+				isG, isL = isG && wg, isL && wl
+			}
+			return isG, isG && isL
 		}
 		return false, false
 	}
@@ -779,7 +803,10 @@ func runC10(c *Ctx) {
 	//   the outcome list itself: nil when the listing starts (zero value, or only nil stored by the outer function), and
 	//   the callback stores to it only after Verify returned nil and only a slice literal, which is never nil — so
 	//   "outcomes != nil" (or len(outcomes) != 0) holds exactly if some signature verified.
-	var indicator EdgeSel
+	// (The tests are selected by the values compared; a test made by a read-only accessor of the state object —
+	// `func (s *state) succeeded() bool { return len(s.outcomes) > 0 }` — counts through c10frame.viaAccessor, a test that
+	// is one operand of a computed disjunction through c10Alts.)
+	var indicator c10sel
 	indWhat := ""
 	if flag != nil {
 		fs := x.stores(*flag)
@@ -796,8 +823,7 @@ func runC10(c *Ctx) {
 		c.Check(okF, "early-exit/flag-only-on-success", "the success flag is set only after Verifier.Verify returned nil", w.InstrPos(flag.base), x.cellName(*flag)+" is also written elsewhere, or its address escapes")
 		fc := *flag
 		indWhat = "the success flag"
-		indicator = func(l string, iff *ssa.If, truth bool) bool {
-			cond := iff.Cond
+		indicator = func(l string, cond ssa.Value, truth bool) bool {
 			for {
 				u, ok := cond.(*ssa.UnOp)
 				if !ok || u.Op != token.NOT {
@@ -828,8 +854,8 @@ func runC10(c *Ctx) {
 		c.Check(okF, "early-exit/flag-only-on-success", "the success indicator (the outcome list, nil until then) is set only after Verifier.Verify returned nil, to a non-nil list", w.InstrPos(out.base), x.cellName(*out)+" can be non-nil without a successful verification, or its address escapes")
 		oc := *out
 		indWhat = "a non-nil outcome list"
-		indicator = func(l string, iff *ssa.If, truth bool) bool {
-			op, a, b, ok := c10Cmp(iff.Cond, truth)
+		indicator = func(l string, cond ssa.Value, truth bool) bool {
+			op, a, b, ok := c10Cmp(cond, truth)
 			if !ok {
 				return false
 			}
@@ -855,12 +881,12 @@ func runC10(c *Ctx) {
 		}
 		ok := len(listExits) > 0
 		detail := ""
-		if b, n, _ := exitsBlockedSel(fi, listExits, afterList(indicator)); !b || n == 0 {
+		if b, n, _ := exitsBlockedSel(fi, listExits, afterList(c10Edges(x.viaAccessor(indicator)))); !b || n == 0 {
 			ok, detail = false, "success without "+indWhat
 		}
 		// some signature was processed: counter != 0 (counting down: counter != limit)
-		processed := func(l string, iff *ssa.If, truth bool) bool {
-			op, a, b, okc := c10Cmp(iff.Cond, truth)
+		processed := func(l string, cond ssa.Value, truth bool) bool {
+			op, a, b, okc := c10Cmp(cond, truth)
 			if !okc {
 				return false
 			}
@@ -873,7 +899,7 @@ func runC10(c *Ctx) {
 			}
 			return isCnt(a) && (((op == token.NEQ || op == token.GTR) && c10IntConst(b, 0)) || (op == token.GEQ && c10IntConst(b, 1)))
 		}
-		if b, n, _ := exitsBlockedSel(fi, listExits, afterList(processed)); !b || n == 0 {
+		if b, n, _ := exitsBlockedSel(fi, listExits, afterList(c10Edges(x.viaAccessor(processed)))); !b || n == 0 {
 			ok, detail = false, "success with zero processed signatures"
 		}
 		for _, ex := range listExits {
@@ -885,7 +911,9 @@ func runC10(c *Ctx) {
 		}
 		c.Check(ok, "result/success-exit", "the success exit requires the success flag and a non-zero counter and returns the resolved descriptor with the stored outcomes", site, detail)
 		// listing error other than the sentinel is fail-closed (disjunctive)
-		okL, n, wit := exitsBlockedSel(fi, listExits, matchOf(pre("EQ("+descTailErr(list)+",nil)"), pre("T(call:errors.Is("+descTailErr(list)+",global:ngo.", "))")))
+		// (the two alternatives may be two branches or one branch on the computed disjunction `err == nil || errors.Is(err,
+		// errDone)` — a `switch` case: c10Alts)
+		okL, n, wit := exitsBlockedSel(fi, listExits, c10Edges(c10Labels(matchOf(pre("EQ("+descTailErr(list)+",nil)"), pre("T(call:errors.Is("+descTailErr(list)+",global:ngo.", "))")))))
 		c.slot(okL && n >= 2, n, "result/listing-error", "a listing error other than the done sentinel fails verification", w.InstrPos(list), "success after a listing error", wit...)
 	}
 
@@ -936,7 +964,8 @@ func c10IsStructPtr(t types.Type) bool {
 // objectDiscipline: the state object is used only through its fields — by the outer function (directly or through the
 // one local that holds its address), by the callback only to hand it to the page worker, by the page worker only through
 // the parameter that receives it — field by field, or handed on as it is to the per-signature worker at its one call
-// site, which again uses the parameter that receives it field by field only. Then the stores found by field
+// site, which again uses the parameter that receives it field by field only; or handed to a read-only accessor (a module
+// function that only loads fields of the parameter that receives it). Then the stores found by field
 // (c10frame.stores, which looks at all these functions) are all the stores there are.
 func (x *c10frame) objectDiscipline() (bool, string) {
 	isObjParam := func(p *ssa.Parameter) bool {
@@ -963,6 +992,11 @@ func (x *c10frame) objectDiscipline() (bool, string) {
 			case *ssa.Call:
 				// handed to the per-signature worker: only as an argument whose parameter is known to alias the object
 				okCall := x.H != nil && u == x.hc && u.Call.Value != v && len(u.Call.Args) == len(x.H.Params)
+				if x.accCalls[u] {
+					// handed to a read-only accessor (c10frame.findAccessors): it loads fields and nothing else, so it adds
+					// neither a store nor another way to reach the object
+					continue
+				}
 				if okCall {
 					for i, a := range u.Call.Args {
 						if a == v && !isObjParam(x.H.Params[i]) {
